@@ -28,6 +28,10 @@ pub fn run_step(db: &mut SparqlDatabase, st: &Value) -> Value {
             let id = db.dictionary.write().unwrap().encode(st["g"].as_str().unwrap());
             db.dataset_index.create_graph(GraphId::Named(id));
         }
+        "load" => {
+            // N-Triples text through the loader (datasets with given blank-node labels cannot be built with INSERT DATA)
+            if let Err(p) = guarded(|| db.parse_ntriples_and_add(text)) { ev["res"] = json!("panic"); ev["err"] = json!(p); }
+        }
         "query" => {
             let r = guarded(|| match ep {
                 "volcano" => Ok(execute_query_rayon_parallel2_volcano(text, db)),
